@@ -220,8 +220,14 @@ def run_case(desc):
     if switch_at is not None:
         m = switch_at
         limit = bound(kind, b, w_before[0] or w_eff, ns)      # first part: the budget and window the manager was built with
-        tail = cum[m:] - (cum[m - 1] if m > 0 else 0)
+        q0 = cum[m - 1] if m > 0 else 0
+        tail = cum[m:] - q0
         lim2 = bound(kind, b2, w_eff, np.arange(1, n - m + 1))
+        if kind != "zl":
+            # managers that account the WHOLE stream (labels / instances since the start): budget left unspent before the
+            # switch may still be spent afterwards, and labels spent above the new budget only stop further grants - the
+            # bound after the switch is the one of the whole prefix under the new budget (or what had been granted already)
+            lim2 = np.maximum(q0, bound(kind, b2, w_eff, m + np.arange(1, n - m + 1))) - q0
         over2 = np.flatnonzero(tail > lim2 + 1e-9)
         if len(over2):
             i = int(over2[0])
